@@ -1241,12 +1241,24 @@ func main() {
 		"pre-stored local chain, every (local length, fork point, new blocks) shape; dynamic: the source replaces suffixes of its chain " +
 		"while the node syncs, with failing / slow / corrupted / mis-numbered answers and stale heads); non-trivial = the node's chain changed")
 	var scs []Scenario
+	if os.Getenv("C06_ONLY") == "feedconc" { // developer switch: only the concurrent feed family
+		drv, err := lib.StartDriver(f.Driver)
+		if err != nil {
+			res.Fatalf("Lean driver did not start: %v", err)
+			drv = nil
+		}
+		checkFeedConcurrency(f, res, drv)
+		checkFeedStreams(f, res)
+		lib.Finish(f, res)
+	}
 	if f.Replay != "" {
 		raw, err := os.ReadFile(f.Replay)
 		var rp struct {
 			Replay struct {
-				Scenario Scenario `json:"scenario"`
-				FeedOps  []feedOp `json:"feed_ops"`
+				Scenario   Scenario     `json:"scenario"`
+				FeedOps    []feedOp     `json:"feed_ops"`
+				FeedRound  *concRound   `json:"feed_round"`
+				FeedStream *streamRound `json:"feed_stream"`
 			} `json:"replay"`
 		}
 		if err == nil {
@@ -1262,6 +1274,14 @@ func main() {
 				res.Violate(lib.Violation{Sig: sig, What: "feed.Feed: " + what,
 					Replay: map[string]any{"feed_ops": rp.Replay.FeedOps, "real": first(runFeedReal(rp.Replay.FeedOps)), "must_be": feedReference(rp.Replay.FeedOps)}})
 			}
+			lib.Finish(f, res)
+		}
+		if rp.Replay.FeedRound != nil { // one round of concurrent operations on feed.Feed
+			replayConcRound(res, *rp.Replay.FeedRound)
+			lib.Finish(f, res)
+		}
+		if rp.Replay.FeedStream != nil { // one stream round on feed.Feed
+			replayStreamRound(res, *rp.Replay.FeedStream)
 			lib.Finish(f, res)
 		}
 		for i := 0; i < 20; i++ { // schedules differ from run to run
@@ -1488,6 +1508,12 @@ func main() {
 			drv = nil
 		}
 		checkFeeds(f, res, drv)
+		if len(res.Violations) == 0 {
+			checkFeedConcurrency(f, res, drv)
+			checkFeedStreams(f, res)
+		} else {
+			res.Note("concurrent feed check skipped: violations already recorded (a broken feed may panic inside its own goroutines)")
+		}
 		checkVersions(f, res, drv)
 		checkTamperMatrix(f, res)
 		if drv != nil {
